@@ -180,18 +180,16 @@ class Created:
 
 
 def bump_counters(rng, ids: dict) -> dict:
-    """Move some counters UP to just below a power of ten (never down: lower values could re-mint names of live
+    """Move some counters UP to just below a decimal or binary threshold (never down: lower values could re-mint names of live
     objects, which no history of the library can do)."""
     done = {}
+    thresholds = FAR_STATES
     for p in ("SYM", "FUN", "QTY", "SYS", "VEC", "C", ""):
         cur = ids.get(p, 0)
-        if cur < 10**17 and rng.random() < (0.35 if cur < 10**6 else 0.06):
-            m = 1
-            while 10**m - 12 <= cur:
-                m += 1
-            if rng.random() < 0.3:
-                m += rng.randrange(0, 3)
-            v = 10**m - rng.randrange(0, 12)
+        above = [b for b in thresholds if b - 12 > cur]
+        if above and rng.random() < (0.35 if cur < 10**6 else 0.08):
+            b = above[min(len(above) - 1, rng.choice([0, 0, 0, 1, 2]))]
+            v = b - rng.randrange(0, 12)
             ids[p] = v
             done[p] = v
     return done
@@ -542,6 +540,38 @@ def tie_prefixes(ctx):
     return found
 
 
+FAR_STATES = sorted({2**8, 2**15, 2**16, 2**31, 2**32, 2**53, 2**63, 2**64} | {10**k for k in range(1, 21)})
+
+
+def ids_spec_failure(d):
+    """the property's demands on one executed id history, evaluated on the implementation's own answers: ids of a prefix strictly
+    increase from the pre-set state, a name is prefix + decimal id, no name is handed out twice"""
+    import re  # pylint: disable=import-outside-toplevel
+    last = dict(d["before"])
+    names = set()
+    for op, ob in zip(d["ops"], d["observed"]):
+        m = re.match(r'(NextId|NextName|LastId) "(.*)"$', op)
+        kind, p = m.group(1), m.group(2)
+        if kind == "LastId":
+            continue
+        if kind == "NextId":
+            v = int(ob.split()[1].replace("%N", ""))
+            nm = p + str(v)
+        else:
+            nm = ob[len('OName "'):-1]
+            if not nm.startswith(p) or not nm[len(p):].isdigit():
+                return ("bad-name", f"next_name({p!r}) returned {nm!r}, not prefix + decimal id")
+            v = int(nm[len(p):])
+        if v <= last.get(p, 0):
+            return ("not-increasing", f"next_id({p!r}) returned {v} although the counter already stood at {last.get(p, 0)}: ids are re-used "
+                f"(the name {nm!r} was, or may have been, handed out before)")
+        if nm in names:
+            return ("duplicate-name", f"the name {nm!r} was handed out twice")
+        names.add(nm)
+        last[p] = v
+    return None
+
+
 def ids_stream(ctx, n_cases, found_prefixes):
     """random histories over the real next_id / next_name / last_id vs Ids.run_obs (exact)"""
     from symplyphysics.core.symbols import id_generator as g  # pylint: disable=import-outside-toplevel
@@ -550,16 +580,25 @@ def ids_stream(ctx, n_cases, found_prefixes):
     saved = dict(g._ids)  # pylint: disable=protected-access
     cases, descs = [], []
     pool = list(found_prefixes) + ["ZZ", "A", "SY"]
+    # names_fresh is stated for EVERY start state: besides random small histories, every prefix in use is started just below and
+    # around binary and decimal thresholds (deterministic sweep), where a counter that wraps, truncates or goes through a fixed-width
+    # or floating-point representation would show
+    far = [(p, b + d) for p in found_prefixes for b in FAR_STATES for d in (-2, -1, 0, 1) if b + d >= 0]
     try:
-        for _ in range(n_cases):
+        for c_i in range(len(far) + n_cases):
             g._ids.clear()  # pylint: disable=protected-access
-            for p in rng.sample(pool, rng.randrange(0, 5)):
-                g._ids[p] = rng.choice([0, 1, 8, 9, 10, 98, 99, 100, 999, 12345, 10**rng.randrange(1, 12) - rng.randrange(0, 3)])  # pylint: disable=protected-access
+            if c_i < len(far):
+                fp, fv = far[c_i]
+                g._ids[fp] = fv  # pylint: disable=protected-access
+                script = [(fp, "name"), (fp, "id"), (fp, "name"), (fp, "last")]
+            else:
+                for p in rng.sample(pool, rng.randrange(0, 5)):
+                    g._ids[p] = rng.choice([0, 1, 8, 9, 10, 98, 99, 100, 999, 12345, 10**rng.randrange(1, 12) - rng.randrange(0, 3),  # pylint: disable=protected-access
+                        rng.choice(FAR_STATES) - rng.randrange(0, 3)])
+                script = [(rng.choice(pool), rng.choice(["id", "name", "name", "last"])) for _ in range(rng.randrange(1, 60))]
             before = dict(g._ids)  # pylint: disable=protected-access
             ops, obs = [], []
-            for _ in range(rng.randrange(1, 60)):
-                p = rng.choice(pool)
-                k = rng.choice(["id", "name", "name", "last"])
+            for p, k in script:
                 if k == "id":
                     v = g.next_id(p) if p or rng.random() < 0.5 else g.next_id()
                     ops.append(f"NextId {gstr(p)}")
@@ -586,15 +625,18 @@ def ids_stream(ctx, n_cases, found_prefixes):
     reported = set()
     for i in bad:
         d = descs[i]
-        names = [o for o in d["observed"] if o.startswith("OName")]
-        dup = len(names) != len(set(names))
-        key = f"{ctx.prop}:ids:duplicate-name" if dup else f"{ctx.prop}:ids:" + hashlib.sha1(cases[i].encode()).hexdigest()[:12]
-        if dup in reported:
+        why = ids_spec_failure(d)
+        kind = why[0] if why else "disagree"
+        key = f"{ctx.prop}:ids:{kind}" if why else f"{ctx.prop}:ids:" + hashlib.sha1(cases[i].encode()).hexdigest()[:12]
+        if kind in reported:
             continue           # one replay per kind is enough; the count is in evidence
-        reported.add(dup)
-        ctx.violation(key, ("next_name handed out the same name twice" if dup else "id generator and Model/Ids.v disagree") +
-            f" on history {d['ops'][:12]}... from {d['before']}", {"kind": "violation" if dup else "disagreement", "input": d,
-            "theorem_or_tie": "correspondence Ids.run_obs ~ id_generator.py", "gallina": cases[i][:3000]}, found_input=dup)
+        reported.add(kind)
+        ctx.violation(key, (why[1] if why else "id generator and Model/Ids.v disagree") +
+            f" -- counters before: {d['before']}, history {d['ops'][:8]}{'...' if len(d['ops']) > 8 else ''}, observed {d['observed'][:8]}",
+            {"kind": "violation" if why else "disagreement", "input": d, "counter_state": d["before"],
+            "theorem_or_tie": "correspondence Ids.run_obs ~ id_generator.py (names_fresh, next_id_monotone)", "gallina": cases[i][:3000]},
+            found_input=bool(why))
+    ctx.coverage["ids_far_start_states"] = len(far)
     ctx.evaluated(len(cases), len(set(cases)))
     ctx.sample({"stream": "ids", "case": descs[0]})
     ctx.coverage["ids_stream_disagreements"] = len(bad)
